@@ -25,7 +25,7 @@ func (c07) NumCases(tier string) int {
 	if tier == "thorough" {
 		return 120000
 	}
-	return 5000
+	return 12000
 }
 
 func (p c07) Gen(seed uint64, tier string, idx int) (*Case, bool) {
